@@ -36,3 +36,16 @@ Theorem C16_template_use_is_inlining : forall ts t hd sp sp1 sp2 pre post f,
   /\ expand (S f) ts (pre ++ t_content t ++ post) = Ok (inr (pre ++ t_content t ++ post)).
 Proof. exact template_inline. Qed.
 Print Assumptions C16_template_use_is_inlining.
+
+(* the same with parameters: a call with arguments = the content with each parameter replaced, written at that place *)
+Theorem C16_template_call_is_inlining : forall ts t hd sp sp1 sp2 args pre post f,
+  find_template ts (t_name t) = Some t -> length args = length (t_vars t) ->
+  (hd = A_expand \/ hd = A_expand_short) ->
+  let body := map (subst (t_vars t) args) (t_content t) in
+  Forall plain body -> Forall quiet body -> Forall quiet pre -> Forall quiet post ->
+  (depths (pre ++ body ++ post) <= f)%nat ->
+  expand (S (S f)) ts (pre ++ [SList (Atom hd sp1 :: Atom (t_name t) sp2 :: args) sp] ++ post)
+  = expand (S f) ts (pre ++ body ++ post)
+  /\ expand (S f) ts (pre ++ body ++ post) = Ok (inr (pre ++ body ++ post)).
+Proof. exact template_call_is_inlining. Qed.
+Print Assumptions C16_template_call_is_inlining.
